@@ -30,6 +30,9 @@ def main():
     patch = os.path.join(args.src, f"patch{args.k}.diff")
     demo = os.path.join(args.src, f"demo{args.k}.py")
     name = f"{args.prop}-{args.tag}{args.k}"
+    kept_src = not os.path.exists(patch)  # re-evaluation of a candidate already kept under seeded/
+    if kept_src:
+        patch, demo = os.path.join(args.src, "patch.diff"), os.path.join(args.src, "demo.py")
     wt = make_worktree("seed-" + name)
     meta = {"property": args.prop, "candidate": name, "ran": []}
     try:
@@ -37,6 +40,8 @@ def main():
         for f in os.listdir(args.src):  # demos may come with helper modules
             if f.endswith(".py"):
                 shutil.copy(os.path.join(args.src, f), os.path.join(wt, "_seed", f))
+        if kept_src:
+            shutil.copy(demo, os.path.join(wt, "_seed", f"demo{args.k}.py"))
         r0 = sh(f"cd {wt} && timeout 900 /venv/bin/python _seed/demo{args.k}.py", timeout=1000)
         meta["ran"].append({"cmd": "demo without the change", "exit": r0.returncode})
         a = sh(f"git -C {wt} apply {patch}")
@@ -66,14 +71,15 @@ def main():
     if args.keep and meta.get("confirmed"):
         dst = os.path.join("/verif/seeded", name)
         os.makedirs(dst, exist_ok=True)
-        shutil.copy(patch, os.path.join(dst, "patch.diff"))
-        shutil.copy(demo, os.path.join(dst, "demo.py"))
-        for f in os.listdir(args.src):
-            if f.endswith(".py") and not f.startswith("demo"):
-                shutil.copy(os.path.join(args.src, f), os.path.join(dst, f))
-        notes = os.path.join(args.src, "notes.md")
-        if os.path.exists(notes):
-            shutil.copy(notes, os.path.join(dst, "notes.md"))
+        if not kept_src:
+            shutil.copy(patch, os.path.join(dst, "patch.diff"))
+            shutil.copy(demo, os.path.join(dst, "demo.py"))
+            for f in os.listdir(args.src):
+                if f.endswith(".py") and not f.startswith("demo"):
+                    shutil.copy(os.path.join(args.src, f), os.path.join(dst, f))
+            notes = os.path.join(args.src, "notes.md")
+            if os.path.exists(notes):
+                shutil.copy(notes, os.path.join(dst, "notes.md"))
         meta["needs_to_manifest"] = args.needs
         meta["demo_usage"] = f"from a checkout with patch.diff applied: mkdir -p _seed && cp demo.py _seed/demo{args.k}.py && /venv/bin/python _seed/demo{args.k}.py"
         json.dump(meta, open(os.path.join(dst, "meta.json"), "w"), indent=1)
